@@ -219,6 +219,8 @@ class Loader:
         parent, _, leaf = name.rpartition(".")
         if parent in self.modules:
             setattr(self.modules[parent], leaf, mod)
+        if getattr(self, "on_load", None) is not None:
+            self.on_load(name, mod)
         return mod
 
     def function_span(self, relpath, funcname):
